@@ -6,6 +6,7 @@ import (
 	"go/ast"
 	"go/parser"
 	"go/token"
+	"io/fs"
 	"strconv"
 	"strings"
 	"sync"
@@ -297,6 +298,254 @@ func astFacts(repo string) (facts, error) {
 	return ft, nil
 }
 
+// ---- go/ast facts about the writer registry (core/the) -----------------------------------------------
+
+type regFacts struct {
+	mutexVars       int  // package-level variables of type sync.Mutex / sync.RWMutex in core/the/eventwriter.go
+	plainMutex      bool // … and it is a sync.Mutex
+	sharedLockCalls int  // RLock / RUnlock / RLocker / TryLock / TryRLock calls anywhere in core/the (non-test files)
+	mapUsers        int  // functions of core/the (non-test files) that mention `writers`
+	mapUsersLocked  int  // … whose first two statements are `mu.Lock()` and `defer mu.Unlock()` and that do not touch mu otherwise
+	mapUsesOutside  int  // mentions of `writers` outside function bodies, the declaration aside
+	getHoldsLock    bool // createOrGetWriter is such a function
+	getLookupFirst  bool // its third statement is `if w, ok := writers[topic]; ok { return w }`
+	getRegisters    bool // every later mention of the map is `writers[topic] = <call or &literal>` or the final `return writers[topic]`
+	clearHoldsLock  bool // ClearEventWriters is such a function
+	clearClosesEach bool // it ranges over `writers` and calls Close() on the value in the loop body
+	clearEmpties    bool // after the loop: clear(writers) (or writers = make(…))
+}
+
+// lockedByMu: first statement `<mu>.Lock()`, second `defer <mu>.Unlock()`, no other mention of <mu>.
+func lockedByMu(fd *ast.FuncDecl, mu string) bool {
+	if fd == nil || fd.Body == nil || len(fd.Body.List) < 2 {
+		return false
+	}
+	first, ok := fd.Body.List[0].(*ast.ExprStmt)
+	if !ok || callPath(first.X) != mu+".Lock" {
+		return false
+	}
+	d, ok := fd.Body.List[1].(*ast.DeferStmt)
+	if !ok || exprPath(d.Call.Fun) != mu+".Unlock" {
+		return false
+	}
+	n := 0
+	ast.Inspect(fd.Body, func(x ast.Node) bool {
+		if id, ok := x.(*ast.Ident); ok && id.Name == mu {
+			n++
+		}
+		return true
+	})
+	return n == 2
+}
+
+func mentions(n ast.Node, name string) int {
+	k := 0
+	ast.Inspect(n, func(x ast.Node) bool {
+		if id, ok := x.(*ast.Ident); ok && id.Name == name {
+			k++
+		}
+		return true
+	})
+	return k
+}
+
+func isIndexOf(e ast.Expr, m string) bool {
+	ix, ok := e.(*ast.IndexExpr)
+	return ok && exprPath(ix.X) == m
+}
+
+func registryFacts(repo string) (regFacts, error) {
+	var rf regFacts
+	fset := token.NewFileSet()
+	pkgs, err := parser.ParseDir(fset, repo+"/core/the", func(fi fs.FileInfo) bool { return !strings.HasSuffix(fi.Name(), "_test.go") }, 0)
+	if err != nil {
+		return rf, err
+	}
+	pkg := pkgs["the"]
+	if pkg == nil {
+		return rf, fmt.Errorf("package the not found in core/the")
+	}
+	const m = "writers"
+	mu := ""
+	var get, clr *ast.FuncDecl
+	for name, f := range pkg.Files {
+		for _, d := range f.Decls {
+			switch x := d.(type) {
+			case *ast.GenDecl:
+				for _, sp := range x.Specs {
+					vs, ok := sp.(*ast.ValueSpec)
+					if !ok {
+						continue
+					}
+					declares := false
+					for _, n := range vs.Names {
+						if n.Name == m {
+							declares = true
+						}
+					}
+					if strings.HasSuffix(name, "/eventwriter.go") {
+						if tp := exprPath(vs.Type); vs.Type != nil && (tp == "sync.Mutex" || tp == "sync.RWMutex") {
+							rf.mutexVars += len(vs.Names)
+							rf.plainMutex = tp == "sync.Mutex"
+							mu = vs.Names[0].Name
+						}
+					}
+					k := mentions(vs, m)
+					if declares {
+						k--
+					}
+					rf.mapUsesOutside += k
+				}
+			case *ast.FuncDecl:
+				if x.Body == nil {
+					continue
+				}
+				for _, suffix := range []string{".RLock", ".RUnlock", ".RLocker", ".TryLock", ".TryRLock"} {
+					rf.sharedLockCalls += len(callsIn(x, suffix))
+				}
+				if x.Recv == nil && x.Name.Name == "createOrGetWriter" {
+					get = x
+				}
+				if x.Recv == nil && x.Name.Name == "ClearEventWriters" {
+					clr = x
+				}
+			}
+		}
+	}
+	if rf.mutexVars != 1 || mu == "" {
+		// (facts below need the one mutex; report what was found and leave them false)
+		mu = "mu"
+	}
+	for _, f := range pkg.Files {
+		for _, d := range f.Decls {
+			if fd, ok := d.(*ast.FuncDecl); ok && fd.Body != nil && mentions(fd, m) > 0 {
+				rf.mapUsers++
+				if lockedByMu(fd, mu) {
+					rf.mapUsersLocked++
+				}
+			}
+		}
+	}
+	if get == nil || clr == nil {
+		return rf, fmt.Errorf("createOrGetWriter / ClearEventWriters not found in core/the")
+	}
+	rf.getHoldsLock = lockedByMu(get, mu)
+	rf.clearHoldsLock = lockedByMu(clr, mu)
+	// createOrGetWriter: the lookup comes first …
+	body := get.Body.List
+	lookupAt := -1
+	for i, st := range body {
+		if mentions(st, m) == 0 {
+			continue
+		}
+		ifs, ok := st.(*ast.IfStmt)
+		if ok && ifs.Else == nil && ifs.Init != nil {
+			if as, ok := ifs.Init.(*ast.AssignStmt); ok && as.Tok == token.DEFINE && len(as.Lhs) == 2 && len(as.Rhs) == 1 && isIndexOf(as.Rhs[0], m) {
+				w, okv := exprPath(as.Lhs[0]), exprPath(as.Lhs[1])
+				if exprPath(ifs.Cond) == okv && len(ifs.Body.List) == 1 {
+					if r, ok := ifs.Body.List[0].(*ast.ReturnStmt); ok && len(r.Results) == 1 && exprPath(r.Results[0]) == w {
+						lookupAt = i
+					}
+				}
+			}
+		}
+		break // only the FIRST statement that mentions the map counts
+	}
+	rf.getLookupFirst = rf.getHoldsLock && lookupAt == 2
+	// … and everything after it that mentions the map registers a fresh writer or returns the registered one
+	if lookupAt >= 0 {
+		okAll, assigns, last := true, 0, false
+		var walk func(st ast.Stmt, isLast bool)
+		walk = func(st ast.Stmt, isLast bool) {
+			switch x := st.(type) {
+			case *ast.IfStmt:
+				if x.Init != nil && mentions(x.Init, m) > 0 || mentions(x.Cond, m) > 0 {
+					okAll = false
+				}
+				for _, b := range x.Body.List {
+					walk(b, false)
+				}
+				if x.Else != nil {
+					walk(x.Else, false)
+				}
+			case *ast.BlockStmt:
+				for _, b := range x.List {
+					walk(b, false)
+				}
+			case *ast.AssignStmt:
+				if mentions(x, m) == 0 {
+					return
+				}
+				if x.Tok == token.ASSIGN && len(x.Lhs) == 1 && len(x.Rhs) == 1 && isIndexOf(x.Lhs[0], m) && mentions(x.Rhs[0], m) == 0 {
+					switch r := x.Rhs[0].(type) {
+					case *ast.CallExpr:
+						assigns++
+						return
+					case *ast.UnaryExpr:
+						if _, ok := r.X.(*ast.CompositeLit); ok && r.Op == token.AND {
+							assigns++
+							return
+						}
+					}
+				}
+				okAll = false
+			case *ast.ReturnStmt:
+				if mentions(x, m) == 0 {
+					return
+				}
+				if isLast && len(x.Results) == 1 && isIndexOf(x.Results[0], m) {
+					last = true
+					return
+				}
+				okAll = false
+			default:
+				if mentions(st, m) > 0 {
+					okAll = false
+				}
+			}
+		}
+		rest := body[lookupAt+1:]
+		for i, st := range rest {
+			walk(st, i == len(rest)-1)
+		}
+		rf.getRegisters = okAll && assigns >= 1 && last
+	}
+	// ClearEventWriters: for _, w := range writers { w.Close() } ; clear(writers)
+	rangeAt := -1
+	for i, st := range clr.Body.List {
+		if rs, ok := st.(*ast.RangeStmt); ok && exprPath(rs.X) == m && rs.Value != nil {
+			v := exprPath(rs.Value)
+			for _, b := range rs.Body.List {
+				if es, ok := b.(*ast.ExprStmt); ok && callPath(es.X) == v+".Close" {
+					rf.clearClosesEach = true
+				}
+			}
+			// nothing in the loop leaves it early
+			ast.Inspect(rs.Body, func(n ast.Node) bool {
+				switch n.(type) {
+				case *ast.BranchStmt, *ast.ReturnStmt, *ast.GoStmt:
+					rf.clearClosesEach = false
+				}
+				return true
+			})
+			rangeAt = i
+		}
+		if rangeAt >= 0 && i > rangeAt {
+			switch x := st.(type) {
+			case *ast.ExprStmt:
+				if c, ok := x.X.(*ast.CallExpr); ok && exprPath(c.Fun) == "clear" && len(c.Args) == 1 && exprPath(c.Args[0]) == m {
+					rf.clearEmpties = true
+				}
+			case *ast.AssignStmt:
+				if len(x.Lhs) == 1 && exprPath(x.Lhs[0]) == m && len(x.Rhs) == 1 && callPath(x.Rhs[0]) == "make" {
+					rf.clearEmpties = true
+				}
+			}
+		}
+	}
+	return rf, nil
+}
+
 // ---- tabulations by evaluating the linked code ---------------------------------------------------
 
 // popTable: push 0..len-1 into the real FifoBuffer, PopMultiple(n), then drain.
@@ -413,6 +662,23 @@ func genFacts(repo string) (string, error) {
 	fmt.Fprintf(&b, "/-- go/ast: there is exactly one such send and it is an ordinary statement of a block (not the communication of a select clause): it blocks until the channel takes the message. -/\ndef handoverPlainSend : Bool := %s\n", lb(ft.handoverPlainSend))
 	fmt.Fprintf(&b, "/-- go/ast: select statements anywhere in WriteEventWithTimestamp. -/\ndef handoverSelects : Nat := %d\n", ft.handoverSelects)
 	fmt.Fprintf(&b, "/-- go/ast: go statements anywhere in WriteEventWithTimestamp. -/\ndef handoverGoStmts : Nat := %d\n\n", ft.handoverGoStmts)
+	rf, err := registryFacts(repo)
+	if err != nil {
+		return "", err
+	}
+	b.WriteString("/-! go/ast, core/the/*.go (test files aside): the writer registry. -/\n\n")
+	fmt.Fprintf(&b, "/-- package-level variables of type sync.Mutex or sync.RWMutex in core/the/eventwriter.go. -/\ndef regMutexVars : Nat := %d\n", rf.mutexVars)
+	fmt.Fprintf(&b, "/-- … it is a sync.Mutex (no shared mode exists). -/\ndef regPlainMutex : Bool := %s\n", lb(rf.plainMutex))
+	fmt.Fprintf(&b, "/-- RLock / RUnlock / RLocker / TryLock / TryRLock calls anywhere in core/the. -/\ndef regSharedLockCalls : Nat := %d\n", rf.sharedLockCalls)
+	fmt.Fprintf(&b, "/-- functions of core/the that mention the map `writers`. -/\ndef regMapUsers : Nat := %d\n", rf.mapUsers)
+	fmt.Fprintf(&b, "/-- … of which start with `mu.Lock(); defer mu.Unlock()` and do not touch mu otherwise. -/\ndef regMapUsersLocked : Nat := %d\n", rf.mapUsersLocked)
+	fmt.Fprintf(&b, "/-- mentions of `writers` outside function bodies, its declaration aside. -/\ndef regMapUsesOutside : Nat := %d\n", rf.mapUsesOutside)
+	fmt.Fprintf(&b, "/-- createOrGetWriter starts with `mu.Lock(); defer mu.Unlock()` and does not touch mu otherwise: lookup, creation and registration are one critical section. -/\ndef regGetHoldsLock : Bool := %s\n", lb(rf.getHoldsLock))
+	fmt.Fprintf(&b, "/-- its third statement — the first that mentions the map — is `if w, ok := writers[topic]; ok { return w }`. -/\ndef regGetLookupFirst : Bool := %s\n", lb(rf.getLookupFirst))
+	fmt.Fprintf(&b, "/-- every later mention of the map is `writers[topic] = <constructor call / &literal>` or the final `return writers[topic]`. -/\ndef regGetRegisters : Bool := %s\n", lb(rf.getRegisters))
+	fmt.Fprintf(&b, "/-- ClearEventWriters starts with `mu.Lock(); defer mu.Unlock()` and does not touch mu otherwise. -/\ndef regClearHoldsLock : Bool := %s\n", lb(rf.clearHoldsLock))
+	fmt.Fprintf(&b, "/-- it ranges over `writers` calling Close() on every value; nothing leaves the loop early. -/\ndef regClearClosesEach : Bool := %s\n", lb(rf.clearClosesEach))
+	fmt.Fprintf(&b, "/-- after the loop the map is emptied (`clear(writers)`). -/\ndef regClearEmpties : Bool := %s\n\n", lb(rf.clearEmpties))
 	b.WriteString("/-- The linked FifoBuffer evaluated: (n, len, PopMultiple(n) after pushing 0..len-1, what is left). -/\ndef popTable : List (Nat × Nat × List Nat × List Nat) := [\n")
 	b.WriteString(popTable())
 	b.WriteString("\n]\n\n/-- The linked WriteEventWithTimestamp evaluated through the hook: (kind, env id number, task id number, key code). -/\ndef keyTable : List (Nat × Nat × Nat × Nat) := [\n")
